@@ -1,9 +1,178 @@
-(** C04 -- statements only. *)
-From Coq Require Import NArith List.
-From FF Require Import Lib.Word Gen.Consts_mm_vmm Vmm.Pt Vmm.PtProofs.
+(** C04 -- page-table operations implement exactly the requested address translation.
+    Statements only; every proof is [exact <lemma from Vmm/Pt*.v>].
+
+    Vocabulary (Vmm/PtTree.v, Vmm/PtMap.v):
+      [ent s f i]          word i of physical frame f;   [backed s f]  f is simulated RAM
+      [mmu]/[resolve]      the x86-64 4-level translation from cr3 (Vmm/Pt.v); every *pte access of the
+                           Go code is a virtual access resolved by it
+      [aspace s T p]       raw leaf entry of page p in the tree rooted at frame T, if the three upper
+                           levels are present (what the harness's software MMU walk returns)
+      [translation s T p]  Some (frame, flag bits) iff that leaf is present
+      [Inv s A T own]      the invariant: A = active root (cr3), slot 511 of A points at T and T's own
+                           slot 511 at T; [own] is the ghost ownership map table frame -> path (no table
+                           is shared between two positions of the tree, present entries of upper levels are
+                           non-huge and point to owned tables); allocator frames are fresh and distinct.
+      pages with top-level index 511 (the recursive window itself) are outside the quantifier. *)
+From Coq Require Import NArith List Bool.
+From FF Require Import Lib.Word Gen.Consts_mm_vmm Vmm.Pt Vmm.PtArith Vmm.PtTree Vmm.PtMap Vmm.PtOps Vmm.PtTheorems Vmm.PtInit Vmm.PtPdt Vmm.PtTemp.
 Import ListNotations.
 Local Open Scope N_scope.
 
-Theorem C04_levels : go_levels = [(39, 9); (30, 9); (21, 9); (12, 9)].
-Proof. exact go_levels_hw. Qed.
-Print Assumptions C04_levels.
+(** The Go constants describe the hardware that [mmu] models (re-checked against the regenerated
+    constants on every run). *)
+Theorem C04_constants :
+  go_levels = [(39, 9); (30, 9); (21, 9); (12, 9)] /\ vmm_pdtVirtualAddr = win 511 511 511 511 /\
+  vmm_tempMappingAddr = win 510 511 511 511 /\ mm_PointerShift = 3 /\ mm_PageShift = 12 /\
+  vmm_ptePhysPageMask = N.shiftl (N.ones 40) 12 /\ vmm_FlagPresent = 1 /\ vmm_FlagHugePage = 128 /\
+  (forall e, has_flags e vmm_FlagPresent = hw_P e) /\ (forall e, has_flags e vmm_FlagHugePage = hw_PS e) /\
+  (forall e, pte_frame e = hw_frame e).
+Proof.
+  exact (conj go_levels_val (conj pdt_virtual_addr_win (conj temp_addr_win (conj pointer_shift_val (conj page_shift_val
+        (conj phys_mask_val (conj flag_present_val (conj flag_huge_val (conj has_present_hw (conj has_huge_hw pte_frame_hw)))))))))).
+Qed.
+Print Assumptions C04_constants.
+
+(** recursive_entry: the address [walk] computes for the level-k entry of [va] (pdtVirtualAddr,
+    [entryAddr <<= 9] with 64-bit wrap-around, k = 0..3) resolves through the MMU to entry
+    index_k(va) of the level-k table on va's path -- in the tree of whichever root [T] the active
+    root's slot 511 currently points at. *)
+Theorem C04_recursive_entry :
+  forall s A T va k t,
+    N.shiftr (cr3 s) 12 = A -> Rec s A T -> (k <= 3)%nat ->
+    follow s T (firstn k (ixs (N.shiftr va 12))) = Some t -> backed s t = true ->
+    resolve s (walk_entry_addr va k) = Some (t, nth k (ixs (N.shiftr va 12)) 0).
+Proof. exact recursive_entry. Qed.
+Print Assumptions C04_recursive_entry.
+
+(** map_ok.  Map never makes a stray access; it returns nil or the allocator's error.  On success the
+    page's leaf entry is exactly [*pte = 0; SetFrame; SetFlags], every other page translates as before,
+    the page is flushed; on allocator failure NO page's translation changes.  In both cases frames that
+    are not tables of this address space are untouched (in particular the active root when T is not
+    active), every new table is zero except for the entry on the page's path, and the invariant holds
+    again. *)
+Theorem C04_map_ok :
+  forall s A T own page frame flags,
+    Inv s A T own -> hw_idx page 0 <> 511 -> zero_guard s frame flags = false ->
+    exists s' err own',
+      map_page page frame flags s = Ok (s', err) /\ Inv s' A T own' /\ same_env s s' /\
+      (err = 0 \/ err = E_ALLOC) /\
+      (err = 0 ->
+         aspace s' T page = Some (set_flags (set_frame 0 frame) flags) /\
+         (forall q, hw_idx q 0 <> 511 -> ~ same_page q page -> translation s' T q = translation s T q) /\
+         flog s' = frame_addr page :: flog s) /\
+      (err <> 0 ->
+         (forall q, hw_idx q 0 <> 511 -> translation s' T q = translation s T q) /\ flog s' = flog s) /\
+      (forall f i, own' f = None -> ent s' f i = ent s f i) /\
+      (forall f q i, own f = None -> own' f = Some q -> ent s' f i <> 0 -> exists j, q ++ [i] = firstn j (ixs page)) /\
+      (exists n, orc s' = skipn n (orc s) /\
+                 forall f, own' f = own f \/ (own f = None /\ In f (firstn n (orc s)) /\ f <> 0)) /\
+      (forall f p i, own f = Some p -> p ++ [i] <> firstn (S (length p)) (ixs page) -> ent s' f i = ent s f i) /\
+      (forall f p i, own f = Some p -> (length p < 3)%nat -> hw_P (ent s f i) = true -> ent s' f i = ent s f i).
+Proof. exact map_ok. Qed.
+Print Assumptions C04_map_ok.
+
+(** For frames below 2^40 and flags outside bits 12-51 the entry is frame<<12 | flags and reads back
+    as exactly (frame, flags). *)
+Theorem C04_leaf_exact :
+  forall frame flags, frame < 2 ^ 40 -> N.land flags vmm_ptePhysPageMask = 0 ->
+    set_flags (set_frame 0 frame) flags = N.lor (N.shiftl frame 12) flags /\
+    hw_frame (set_flags (set_frame 0 frame) flags) = frame /\
+    N.ldiff (set_flags (set_frame 0 frame) flags) vmm_ptePhysPageMask = flags /\
+    hw_P (set_flags (set_frame 0 frame) flags) = N.testbit flags 0.
+Proof. exact leaf_exact. Qed.
+Print Assumptions C04_leaf_exact.
+
+(** unmap_ok *)
+Theorem C04_unmap_ok :
+  forall s A T own page,
+    Inv s A T own -> hw_idx page 0 <> 511 ->
+    exists s' err,
+      unmap_page page s = Ok (s', err) /\ (err = 0 \/ err = E_INVALID) /\ Inv s' A T own /\ same_env s s' /\ orc s' = orc s /\
+      (err = E_INVALID -> s' = s /\ aspace s T page = None) /\
+      (err = 0 ->
+         exists e, aspace s T page = Some e /\ aspace s' T page = Some (clear_flags e vmm_FlagPresent) /\
+                   translation s' T page = None /\
+                   (forall q, hw_idx q 0 <> 511 -> ~ same_page q page -> aspace s' T q = aspace s T q) /\
+                   flog s' = frame_addr page :: flog s /\
+                   (forall f i, own f = None -> ent s' f i = ent s f i) /\
+                   (forall f p i, own f = Some p -> p ++ [i] <> ixs page -> ent s' f i = ent s f i)).
+Proof. exact unmap_ok. Qed.
+Print Assumptions C04_unmap_ok.
+
+(** translate_ok: Translate returns frame*4096 + offset iff the page is mapped, ErrInvalidMapping otherwise. *)
+Theorem C04_translate_ok :
+  forall s A T own va,
+    Inv s A T own -> hw_idx (N.shiftr va 12) 0 <> 511 ->
+    translate va s = Ok (match translation s T (N.shiftr va 12) with
+                         | Some (f, _) => (E_OK, f * 4096 + va mod 4096)
+                         | None => (E_INVALID, 0)
+                         end).
+Proof. exact translate_ok. Qed.
+Print Assumptions C04_translate_ok.
+
+(** pdt_inactive_frame.  [Inv2 s A T ownA own]: A is the active root with tree [ownA], T another root with
+    tree [own], the two trees and the allocator's frames are pairwise disjoint.  PageDirectoryTable.Map
+    on T has the effect of map_ok on T's address space, EVERY frame of the active tree -- the root
+    included, slot 511 restored -- is bit-for-bit what it was, and the patched slot is flushed before and
+    after the operation's own flush. *)
+Theorem C04_pdt_map_inactive :
+  forall s A T ownA own slot page frame flags,
+    Inv2 s A T ownA own -> pdts s slot = T -> hw_idx page 0 <> 511 -> zero_guard s frame flags = false ->
+    exists s3 err own',
+      pdt_map slot page frame flags s = Ok (s3, err) /\ Inv2 s3 A T ownA own' /\ (err = 0 \/ err = E_ALLOC) /\
+      (forall f i, ownA f <> None -> ent s3 f i = ent s f i) /\
+      (forall q, hw_idx q 0 <> 511 -> aspace s3 A q = aspace s A q) /\
+      (err = 0 ->
+         aspace s3 T page = Some (set_flags (set_frame 0 frame) flags) /\
+         (forall q, hw_idx q 0 <> 511 -> ~ same_page q page -> translation s3 T q = translation s T q) /\
+         flog s3 = lea_of A :: frame_addr page :: lea_of A :: flog s) /\
+      (err <> 0 ->
+         (forall q, hw_idx q 0 <> 511 -> translation s3 T q = translation s T q) /\
+         flog s3 = lea_of A :: lea_of A :: flog s) /\
+      same_env s s3 /\
+      (exists n, orc s3 = skipn n (orc s) /\ forall f, own' f = own f \/ (own f = None /\ In f (firstn n (orc s)) /\ f <> 0)).
+Proof. exact pdt_map_inactive. Qed.
+Print Assumptions C04_pdt_map_inactive.
+
+Theorem C04_pdt_unmap_inactive :
+  forall s A T ownA own slot page,
+    Inv2 s A T ownA own -> pdts s slot = T -> hw_idx page 0 <> 511 ->
+    exists s3 err,
+      pdt_unmap slot page s = Ok (s3, err) /\ Inv2 s3 A T ownA own /\ (err = 0 \/ err = E_INVALID) /\
+      (forall f i, ownA f <> None -> ent s3 f i = ent s f i) /\
+      (forall q, hw_idx q 0 <> 511 -> aspace s3 A q = aspace s A q) /\
+      (err = 0 -> translation s3 T page = None /\
+                  (forall q, hw_idx q 0 <> 511 -> ~ same_page q page -> aspace s3 T q = aspace s T q) /\
+                  flog s3 = lea_of A :: frame_addr page :: lea_of A :: flog s) /\
+      (err = E_INVALID -> aspace s T page = None /\ (forall q, hw_idx q 0 <> 511 -> aspace s3 T q = aspace s T q) /\
+                          flog s3 = lea_of A :: lea_of A :: flog s).
+Proof. exact pdt_unmap_inactive. Qed.
+Print Assumptions C04_pdt_unmap_inactive.
+
+(** On the active table the methods are the plain functions. *)
+Theorem C04_pdt_active :
+  forall s slot op, N.shiftr (cr3 s) 12 = pdts s slot -> with_pdt slot op s = op s.
+Proof. exact with_pdt_active. Qed.
+Print Assumptions C04_pdt_active.
+
+(** PageDirectoryTable.Init of a fresh frame F creates an empty address space disjoint from the active
+    one (how an inactive space comes into being); the temporary page is unmapped again, every other
+    page of the active space translates as before. *)
+Theorem C04_pdt_init :
+  forall s A own slot F,
+    Inv s A A own -> (prot s && (F =? zf s)) = false -> backed s F = true -> own F = None -> ~ In F (orc s) ->
+    exists s' err own1,
+      pdt_init slot F s = Ok (s', err) /\ (err = 0 \/ err = E_ALLOC) /\ pdts s' slot = F /\
+      (forall k, k <> slot -> pdts s' k = pdts s k) /\
+      lo s' = lo s /\ cnt s' = cnt s /\ cr3 s' = cr3 s /\ zf s' = zf s /\ prot s' = prot s /\ last s' = last s /\ slog s' = slog s /\
+      (exists n, orc s' = skipn n (orc s) /\ forall f, own1 f = own f \/ (own f = None /\ In f (firstn n (orc s)) /\ f <> 0)) /\
+      (err = 0 ->
+         Inv2 s' A F own1 (own_root F) /\
+         (forall q, hw_idx q 0 <> 511 -> aspace s' F q = None) /\
+         (forall q, hw_idx q 0 <> 511 -> ~ same_page q temp_page -> translation s' A q = translation s A q) /\
+         translation s' A temp_page = None /\
+         (forall f i, own1 f = None -> f <> F -> ent s' f i = ent s f i)) /\
+      (err <> 0 -> Inv s' A A own1 /\ (forall q, hw_idx q 0 <> 511 -> translation s' A q = translation s A q) /\
+                   (forall f i, own1 f = None -> ent s' f i = ent s f i)).
+Proof. exact pdt_init_spec. Qed.
+Print Assumptions C04_pdt_init.
